@@ -678,7 +678,7 @@ func (e *Exec) runBlocks(fr *Frame, b *ssa.BasicBlock) []Value {
 				if sym {
 					fr.loopHits[next]++
 					if fr.loopHits[next] > e.cfg.Unwind {
-						e.end("unwind", fmt.Sprintf("loop at %s", e.W.prog.Fset.Position(x.Pos())))
+						e.end("unwind", fmt.Sprintf("loop in %s (block %d, %s) taken more than %d times", fr.fn.String(), next.Index, e.W.prog.Fset.Position(fr.fn.Pos()), e.cfg.Unwind))
 					}
 				}
 			case *ssa.Jump:
